@@ -227,5 +227,22 @@ def run_shard(spec, ctx, acc):
             o = core.checked(check, case)
             o.classes = list(o.classes) + ["tiny-rtcm-with-start-byte-in-crc"]
             core.handle(acc, o, case, known)
+    # more than a thousand rejected frames in a row (each kind, and mixed), then good ones
+    if spec["part"] < 5:
+        ack_ = S.codec.ubx_frame(b"\x05", b"\x01", b"\x06\x01")
+        bads = [streams.item("ubx", ack_[:-1] + b"\x00", "badck"),
+                streams.item("nmea", S.codec.nmea_frame("GNTXT,01,01,02,A", good=False), "badck"),
+                streams.item("rtcm", S.codec.rtcm_frame(bytes.fromhex("3ed00003"), good_crc=False), "badcrc"),
+                streams.item("rtcm", S.codec.rtcm_frame(b""), "empty")]
+        run = [bads[spec["part"]]] * 1100 if spec["part"] < 4 else (bads * 300)
+        good = [streams.item("ubx", ack_, "good"), streams.item("nmea", corp["nmea"][0], "good"),
+                streams.item("rtcm", corp["rtcm"][0], "good")]
+        for qe in (0, 1):
+            case = {"kind": "clean", "items": good[:1] + run + good,
+                    "opts": {"msgmode": 0, "validate": 1, "parsebitfield": 1, "quitonerror": qe, "labelmsm": 1,
+                             "source": "bytesio", "usage": "once"}}
+            o = check(case)
+            o.classes = list(o.classes) + ["long-run-of-rejected-frames"]
+            core.handle(acc, o, case, known)
     core.hyp_search(acc, case_strategy(), check, seed=core.derive(ctx["seed"], PROP, spec["part"]),
                     max_examples=n, known=known, rounds=3)
